@@ -293,13 +293,34 @@ namespace vf
         std::vector<OpSpec> ops;
         ProgInfo pi;
         int snap_id = 0;
+        std::vector<std::string> gnames, enames;
         auto maybe_snap = [&](bool graph_ok)
         {
             if (!allow_snapshots || !s.chance(50))
                 return;
             bool g = graph_ok && s.chance(200);
             bool e = !g || s.coin();
-            ops.push_back(op_snap("s" + std::to_string(snap_id++), g, e));
+            // graph snapshots and elevation snapshots are two separate name spaces: a graph-only
+            // and an elevation-only snapshot may carry the same name (seeded change C16-E)
+            std::string name;
+            if (g != e && s.chance(70))
+            {
+                const auto& other = g ? enames : gnames;
+                const auto& own = g ? gnames : enames;
+                for (auto& cand : other)
+                    if (std::find(own.begin(), own.end(), cand) == own.end())
+                    {
+                        name = cand;
+                        break;
+                    }
+            }
+            if (name.empty())
+                name = "s" + std::to_string(snap_id++);
+            if (g)
+                gnames.push_back(name);
+            if (e)
+                enames.push_back(name);
+            ops.push_back(op_snap(name, g, e));
         };
         maybe_snap(false);
         if (s.chance(90))
